@@ -379,72 +379,13 @@ def replay_c16_seq(ctx, obl, info, vals):
 # sets of unique ids): targeted patterns first (remove newest / re-register / stale id), then a fixed-seed random
 # history. Prints the shortest prefix that disagrees with the model. Used ONLY to attach a concrete failing input
 # to an obligation Verus has already refuted; finding nothing never changes the verdict.
-C05H_MAIN = r'''
-use std::sync::atomic::{AtomicUsize, Ordering::SeqCst};
-use std::sync::Arc;
-use signal_hook_registry::{register, unregister, SigId};
-static LOGN: AtomicUsize = AtomicUsize::new(0);
-static LOG: [AtomicUsize; 64] = { const Z: AtomicUsize = AtomicUsize::new(0); [Z; 64] };
-struct M { sig: i32, tag: usize, id: SigId, live: bool }
-fn main() {
-    let sigs = [libc::SIGUSR1, libc::SIGUSR2];
-    let mut acts: Vec<M> = Vec::new();
-    let mut hist: Vec<String> = Vec::new();
-    let mut rng: u64 = 0x9E3779B97F4A7C15;
-    let mut next = || { rng ^= rng << 13; rng ^= rng >> 7; rng ^= rng << 17; rng };
-    // op codes: 0 = register on sig[a%2]; 1 = unregister the (a % n)-th id ever handed out; 2 = deliver sig[a%2]
-    let mut script: Vec<(u8, u64)> = vec![(0,0),(0,0),(1,1),(0,0),(1,1),(2,0), (0,1),(1,3),(0,1),(1,3),(2,1),(2,0), (0,0),(0,0),(0,0),(1,5),(2,0),(1,6),(2,0),(0,0),(2,0)];
-    for _ in 0..400 { let r = next(); script.push(((r % 3) as u8, r >> 8)); }
-    for (op, a) in script {
-        match op {
-            0 => {
-                let sig = sigs[(a % 2) as usize];
-                let tag = acts.len() + 1;
-                let id = unsafe { register(sig, move || { let n = LOGN.fetch_add(1, SeqCst); if n < 64 { LOG[n].store(tag, SeqCst); } }) }.unwrap();
-                hist.push(format!("register(sig {}) -> action #{}", sig, tag));
-                if let Some(o) = acts.iter().find(|m| m.id == id) {
-                    println!("FAILING HISTORY: {} | the id returned for action #{} equals the id handed out earlier for action #{} (ids must never be reused)", hist.join("; "), tag, o.tag);
-                    std::process::exit(1);
-                }
-                acts.push(M { sig, tag, id, live: true });
-            }
-            1 => {
-                if acts.is_empty() { continue; }
-                let k = (a % acts.len() as u64) as usize;
-                let expect = acts[k].live;
-                let got = unregister(acts[k].id);
-                hist.push(format!("unregister(id of #{}) -> {}", acts[k].tag, got));
-                if got != expect {
-                    println!("FAILING HISTORY: {} | the model says {} (action #{} {} registered)", hist.join("; "), expect, acts[k].tag, if expect { "is still" } else { "is no longer" });
-                    std::process::exit(1);
-                }
-                acts[k].live = false;
-            }
-            _ => {
-                let sig = sigs[(a % 2) as usize];
-                LOGN.store(0, SeqCst);
-                unsafe { libc::raise(sig); }
-                let n = LOGN.load(SeqCst).min(64);
-                let got: Vec<usize> = (0..n).map(|i| LOG[i].load(SeqCst)).collect();
-                let want: Vec<usize> = acts.iter().filter(|m| m.live && m.sig == sig).map(|m| m.tag).collect();
-                hist.push(format!("deliver(sig {}) ran {:?}", sig, got));
-                if got != want && want.len() <= 64 {
-                    println!("FAILING HISTORY: {} | the model says exactly the live actions of that signal in registration order: {:?}", hist.join("; "), want);
-                    std::process::exit(1);
-                }
-            }
-        }
-        if hist.len() > 60 { let keep = hist.split_off(hist.len() - 40); hist = vec![format!("... ({} earlier steps that agreed with the model)", 0)]; hist.extend(keep); }
-    }
-    let _ = Arc::new(0);
-    println!("no failing history found in the search");
-}
-'''
+C05H_MAIN = open(os.path.join(shv.VERIF, 'native', 'c05_history.rs')).read()
+
 
 
 def replay_c05_history(ctx, obl, info, vals):
     rc, out = native_run(ctx['scratch'], 'c05h', C05H_MAIN)
-    line = [l for l in out.splitlines() if l.startswith('FAILING HISTORY')]
+    line = [l.split('FAIL ', 1)[1] for l in out.splitlines() if l.startswith('OBL C05.NATIVE-HISTORY FAIL')]
     if rc == 1 and line:
         return 'REPLAYED on the real code (native build of this tree; history found by a deterministic search over the public API against the reference model):\n  %s' % line[0][:3000]
     return None
